@@ -75,3 +75,21 @@ Definition Substituted (segs be : list tok) (vals : list string) (p : string) : 
   p = expected_path be (combine (ph_names segs) vals) /\ no_placeholder_left p = true.
 Definition Undeclared (declared used : list string) : Prop :=
   exists n, In n used /\ seq_ref n = false /\ ~ In n declared.
+
+(* ---- declarative reading of the two placeholder patterns ----
+   \{([\w\-\.:/]+)\}  : "{", a non-empty run of class characters, "}" somewhere in the text;
+   /\{([a-zA-Z\-_0-9]+)\} : the same after a slash.  (The classes contain no brace, so the run
+   between the braces is the whole capture and matches cannot overlap.) *)
+Definition occurs_placeholder (cls : ascii -> bool) (n s : string) : Prop :=
+  n <> EmptyString /\ all_chars cls n = true /\
+  exists pre post, s = (pre ++ placeholder n ++ post)%string.
+Definition occurs_param (n s : string) : Prop :=
+  n <> EmptyString /\ all_chars name_char n = true /\
+  exists pre post, s = (pre ++ String slash (placeholder n) ++ post)%string.
+
+(* sequentialParamsPattern read declaratively (on placeholder names, which contain no newline):
+   nothing, or resp<one or more digits>_<something>, or JWT.<something> *)
+Definition is_seq_ref (s : string) : Prop :=
+  s = EmptyString \/
+  (exists d x, s = ("resp" ++ d ++ "_" ++ x)%string /\ d <> EmptyString /\ all_chars is_digit d = true /\ x <> EmptyString) \/
+  (exists x, s = ("JWT." ++ x)%string /\ x <> EmptyString).
